@@ -331,6 +331,48 @@ func init() {
 			return tuple{opaquePtr("file", &fileHandle{path: rp}), iface{}}
 		}
 	}
+	// os.Readlink / os.Lstat look at the last component itself (parent
+	// directories are resolved), unconfined like os.Stat
+	lastComponent := func(v *vfs, p string) (*vnode, bool) {
+		p = v.abs(p)
+		rdir, _, err := v.resolve(filepath.Dir(p), "", 0)
+		if err != nil {
+			return nil, false
+		}
+		n, ok := v.nodes[filepath.Join(rdir, filepath.Base(p))]
+		return n, ok
+	}
+	reg("os.Readlink", func(m *Machine, fr *frame, pos token.Pos, a []value) value {
+		p := concStr(a[0], "os.Readlink")
+		n, ok := lastComponent(m.fs(), p)
+		if !ok {
+			return tuple{"", m.notExistErr(p)}
+		}
+		if n.kind != "link" {
+			return tuple{"", m.mkErr("readlink "+p+": invalid argument", false)}
+		}
+		return tuple{n.target, iface{}}
+	})
+	reg("os.Lstat", func(m *Machine, fr *frame, pos token.Pos, a []value) value {
+		p := concStr(a[0], "os.Lstat")
+		if _, ok := lastComponent(m.fs(), p); !ok {
+			return tuple{iface{}, m.notExistErr(p)}
+		}
+		return tuple{iface{t: m.shared.errorT, v: opaque{kind: "fileinfo", payload: m.fs().abs(p)}}, iface{}}
+	})
+	reg("(*os.Root).Stat", func(m *Machine, fr *frame, pos token.Pos, a []value) value {
+		v := m.fs()
+		r := opaqueOf(a[0], "root").(*rootHandle)
+		rel := concStr(a[1], "Root.Stat")
+		if filepath.IsAbs(rel) {
+			return tuple{iface{}, m.mkErr("statat "+rel+": path escapes from parent", false)}
+		}
+		rp, _, err := v.resolveInRoot(r.path, rel, 0)
+		if err != nil {
+			return tuple{iface{}, m.mkErr("statat "+rel+": "+err.Error(), false)}
+		}
+		return tuple{iface{t: m.shared.errorT, v: opaque{kind: "fileinfo", payload: rp}}, iface{}}
+	})
 	reg("os.Open", unconfined("os.Open"))
 	reg("os.ReadFile", unconfined("os.ReadFile"))
 	reg("io.ReadAll", func(m *Machine, fr *frame, pos token.Pos, a []value) value {
